@@ -62,6 +62,15 @@ async def two(a, b=0):
     await asyncio.sleep(0)
 
 
+async def eat(*args, **kwargs):
+    """Works off the lists it is given: records what it received and empties them."""
+    _rec("eat", args, kwargs)
+    for a in list(args) + list(kwargs.values()):
+        if isinstance(a, list):
+            a.clear()
+    await asyncio.sleep(0)
+
+
 def ecb(task_id):
     _rec("ecb", (task_id,), {})
 
